@@ -32,6 +32,14 @@ Every run:
          skeleton `dens` must cover the logged densifications.
      Wall time is reported, never judged.
  (d) evidence.
+
+ROBUSTNESS (round 2).  A changed /repo never makes this check crash: a translator that cannot regenerate the tables, a Lean gate
+that fails, a driver that no longer builds or runs, a rule chain outside the regenerated tables are all recorded as "the
+property is no longer shown to hold"; the measured stream still runs (with the Python mirror of rows / cols / leaf storage when
+the driver is gone), the lattice cases on which the dispatch theorems fail (translator: expected, not reached) are turned into
+concrete public calls with several VALUES per argument class (`directed_search`: pow(K, -2), pow(K, 10), inv(B, LU()), …),
+and the outcome is either VIOLATION with a replayable call that densifies or `VIOLATION … no-failing-input-found` naming the
+theorems that no longer check (`failing_theorems`).
 """
 import gc
 import importlib
@@ -732,19 +740,28 @@ def py_model(e, b):
 
 
 def failing_theorems(gate_err):
-    """names of the theorems at the error positions of a lake / lean output (file:line:col: error …)"""
+    """names of the theorems at the error positions of a lake / lean output (`error: file:line:col: …` or
+    `file:line:col: error …`).  common.lean_gate keeps only the tail of the build output, so the build of the property module
+    is repeated here (cached apart from the failing files) to read the complete list of errors."""
     import re
+    text = gate_err or ""
+    try:
+        _rc, full = common.lake_build([MODULE])
+        text = full + "\n" + text
+    except Exception:  # noqa: BLE001
+        pass
     names = []
-    for m in re.finditer(r"(ColaVerif/[\w/]+\.lean):(\d+):(\d+):\s*error", gate_err or ""):
-        path, line = os.path.join(common.LEAN_DIR, m.group(1)), int(m.group(2))
+    pat = r"(?:error:\s*(?:\./)*(ColaVerif/[\w/]+\.lean):(\d+):(\d+))|(?:(ColaVerif/[\w/]+\.lean):(\d+):(\d+):\s*error)"
+    for m in re.finditer(pat, text):
+        rel, line = (m.group(1), int(m.group(2))) if m.group(1) else (m.group(4), int(m.group(5)))
         try:
-            src = open(path).read().split("\n")
+            src = open(os.path.join(common.LEAN_DIR, rel)).read().split("\n")
         except OSError:
             continue
         for k in range(min(line, len(src)) - 1, -1, -1):
             t = re.match(r"\s*(?:private\s+)?(?:theorem|lemma|def|example)\s+(\S+)?", src[k])
             if t:
-                nm = f"{t.group(1) or 'example'} ({m.group(1)}:{line})"
+                nm = f"{t.group(1) or 'example'} ({rel}:{line})"
                 if nm not in names:
                     names.append(nm)
                 break
